@@ -88,7 +88,16 @@ class Dims:
             if n == "Rem":
                 return self.of(a[0])
             if n in ("Add", "Sub", "min", "max"):
-                return self._same([self.of(x) for x in a], t, n)
+                # a comparison used as a summand (`usize::from(r > 0)`, `(r != 0) as usize`) is a 0/1 literal of the other side's unit;
+                # its own operands must still agree
+                ds = []
+                for x in a:
+                    if x[0] == "op" and x[1] in ("Lt", "Le", "Eq", "Ne", "Not") and n in ("Add", "Sub"):
+                        self.of(x)
+                        ds.append(None)
+                    else:
+                        ds.append(self.of(x))
+                return self._same(ds, t, n)
             if n in ("Shl",):
                 # 1 << bits: a count; dimension must be seeded by the rule (slots = 1 << quotient bits)
                 return {}
